@@ -59,6 +59,40 @@ func (fr *frame) call(instr *ssa.Call, c *ssa.CallCommon, st *State) Value {
 			}
 		}
 	}
+	// assertions the function under verification makes about its own calls of a named function
+	if fr.contract != nil && fr.prefix == "" && len(fr.contract.CallSites) > 0 {
+		for _, cs := range fr.contract.CallSites {
+			hit := false
+			for _, t := range targets {
+				if fx.E.P.Names[t] == cs.Callee {
+					hit = true
+				}
+			}
+			if !hit && ext != nil && extName(ext) == cs.Callee {
+				hit = true
+			}
+			if !hit {
+				continue
+			}
+			if fr.csHit == nil {
+				fr.csHit = map[*CallSite]bool{}
+			}
+			fr.csHit[cs] = true
+			if facetLevel[cs.C.Facet] != fr.level {
+				continue
+			}
+			ev := fr.env(st, fr.entry, nil)
+			for i, a := range args {
+				ev = ev.bind(fmt.Sprintf("arg%d", i), a)
+			}
+			t, err := ev.EvalBool(cs.C.E)
+			if err != nil {
+				fr.specError(cs.C, err)
+				continue
+			}
+			fr.obligeSplit("callsite", clauseName(cs.C)+"."+cs.Callee, t, pos, cs.C.Facet, cs.C.Tags)
+		}
+	}
 	if c.IsInvoke() {
 		recv := args[0]
 		fr.oblige("nil", exprName(c.Value)+"."+c.Method.Name(), Ne(recv.Tag, "0"), pos)
